@@ -4,6 +4,7 @@ lookups as string functions are not decided)."""
 from collections import deque
 from qv.core import AnalysisBroken
 from qv.esp import Engine, Outcome, TOP, fs, ptr_add
+from rules import libtab
 from qv.lib import QHooks, holds_set, macro_const, branch_zero_test, deep_calls, guards_through, consistent_values
 
 
@@ -281,6 +282,79 @@ class SmtpdHooks(QHooks):
         self.trans.append((self.handler, self.pre, post, evs, E.trace.list()))
 
 
+class SetupHooks(libtab.SAConc, QHooks):
+    """qmail-smtpd setup() on a stock installation: control/me exists, the optional files (localiphost, smtpgreeting, ...) do not"""
+    ME = b'server.example'
+
+    def __init__(self):
+        self.ends = []
+
+    def tracked_global(self, path):
+        return True
+
+    def precise_arith(self, path):
+        return True
+
+    def prim_control_init(self, E, x, args):
+        return [Outcome(ret=fs(0))]
+
+    def prim_control_rldef(self, E, x, args):
+        # control_rldef(sa, file, flagme, default): the file is absent -> control/me if flagme, else the default, else nothing (0)
+        flagme, dflt = libtab._one(args[2]), libtab._one(args[3])
+        if flagme:
+            o = self._put(E, x, args, self.ME, False)[0]
+            return [Outcome(ret=fs(1), sets=o.sets)]
+        d = self.cstring(E, dflt) if isinstance(dflt, tuple) else None
+        if d is not None:
+            o = self._put(E, x, args, d, False)[0]
+            return [Outcome(ret=fs(1), sets=o.sets)]
+        return [Outcome(ret=fs(0))]
+
+    def prim_control_readline(self, E, x, args):
+        return [Outcome(ret=fs(0))]          # the file is absent
+
+    def prim_control_readint(self, E, x, args):
+        return [Outcome(ret=fs(0))]
+
+    def prim_control_readfile(self, E, x, args):
+        return [Outcome(ret=fs(0))]
+
+    def _n(self, E, x, args):
+        return [Outcome(ret=TOP)]
+
+    def _z(self, E, x, args):
+        return [Outcome(ret=fs(0))]
+
+    prim_rcpthosts_init = _z
+    prim_env_get = _z
+    prim_dohelo = _n
+
+    def _die(self, E, x, args):
+        return 'noreturn'
+
+    prim_die_control = prim_die_nomem = _die
+
+    def on_return(self, E, fn, val):
+        if fn.name == 'setup':
+            self.ends.append((self.sa_bytes(E, 'G:liphost'), libtab._one(E.get('G:liphostok')), self.sa_bytes(E, 'G:greeting'), E.trace.list()))
+
+
+def setup_sites(db, rep):
+    prog = db.program('qmail-smtpd')
+    fn = prog.fn('setup', 'qmail-smtpd.c')
+    H = SetupHooks()
+    e = Engine(db, prog, H, max_states=60000)
+    e.run(fn, {})
+    rep.count_states(e.states, e.transitions)
+    if not H.ends:
+        raise AnalysisBroken('qmail-smtpd setup(): no end reached on a stock installation')
+    worst = [e_ for e_ in H.ends if not (e_[0] == SetupHooks.ME and e_[1] == 1)]
+    lip, ok, greet, tr = (worst or H.ends)[0]
+    good = not worst
+    return {'setup:without-control/localiphost-the-local-IP-literal-host-is-control/me': (good, 'qmail-smtpd.c:setup',
+            'no control/localiphost: the name substituted for local IP literals is %r (flag %s); documented: control/me = %r, so that <postmaster@[127.0.0.1]> is judged like <postmaster@me>' % (lip, ok, SetupHooks.ME), tr if not good else [])}
+
+
 def run(ctx):
     db, rep = ctx.db, ctx.report
     prog = db.program('qmail-smtpd')
@@ -418,6 +492,8 @@ def run(ctx):
 
     # ---- gates inside smtp_rcpt
     r3 = rep.rule('C08.3-gates', 'R-GUARD', 'relay suffix only for relay clients; bad senders via the whole address or the part from the LAST @; over-long addresses refused below qmail-queue\'s limit; local-IP substitution before the length test')
+    for inst_, v_ in sorted(setup_sites(db, rep).items()):
+        r3.check(v_[0], inst_, v_[1], v_[2], v_[3])
     rc = prog.fn('smtp_rcpt', 'qmail-smtpd.c')
     suf = [c for c in rc.calls('stralloc_cats') if c.args[1].path() == 'G:relayclient']
     r3.check(bool(suf) and all(any(branch_zero_test(c, t, lambda v: v.path() == 'G:relayclient') == 'nonzero' for c, t in rc.guards(s_) or []) for s_ in suf),
